@@ -40,7 +40,7 @@ ASSUMPTIONS = ['reference store: dict id -> (envelope copy, timestamp, '
                'attempts, delivered set); absent id -> error']
 CELL_BUDGET_S = {'quick': 240, 'thorough': 2400}
 SAMPLE_P = 0.02
-MAX_WITNESSES = 6
+MAX_WITNESSES = 10
 MAX_DECISIONS = 40000
 
 OPS = ['write', 'set_timestamp', 'increment_attempts', 'mark', 'get', 'load',
